@@ -1,5 +1,11 @@
 package main
 
+import (
+	"strings"
+
+	"golang.org/x/tools/go/ssa"
+)
+
 // Cross-registration: rules that were written for one property and are necessary conditions of its neighbours as well. A
 // defect in one mechanism of the generator (dependency order, the parser's reading of a provider, context threading, lane
 // assignment) violates several of the listed properties, each on its own inputs: a provider scheduled before its input is a
@@ -30,6 +36,11 @@ func crossRegistered(c *Ctx) {
 		run("syncJoins", func() { ruleSyncJoinsItsInputs(c, base+".41") })
 		run("emittedInPlace", func() { ruleEveryStmtEmittedInPlace(c, base+".41") })
 		run("exprListsFresh", func() { ruleExprListsFresh(c, base+".41") })
+		run("noEarlyExit", func() {
+			// the loops that collect arguments, waits, closes and statements visit every element
+			ruleNoEarlyExit(c, base+".42", "(*InjectorProviderCallStmt).generateChannelWaitStatement", "(*InjectorProviderCallStmt).generateChannelCloseStatement",
+				"(*InjectorProviderCallStmt).buildArguments", "(*InjectorChainStmt).Stmt#emits", "generateStmts", "(*Graph).buildPoolStmtsSimple")
+		})
 		run("readiness", func() { ruleReadinessByFirstNode(c, base+".42") })
 		run("providedCount", func() { ruleProvidedCountPerDependency(c, base+".42") })
 		run("fifo", func() { ruleQueueIsFIFO(c, base+".42") })
@@ -48,6 +59,9 @@ func crossRegistered(c *Ctx) {
 		}
 		if !sk["resultsFresh"] {
 			ruleProviderTypeResultsFresh(c, base+".43")
+		}
+		if !sk["varDecl"] {
+			ruleVarDeclByName(c, base+".43")
 		}
 	}
 	ctx := func(base string, skip ...string) {
@@ -97,7 +111,6 @@ func crossRegistered(c *Ctx) {
 	case "C02":
 		order("C02", "pairedEdges", "isWait", "refTable", "fieldAccess", "guardReceivers", "snapshot", "poolsProcessed", "laneIntegrity", "exprListsFresh")
 		parse("C02", "typeIdentity", "asyncFlag")
-		ruleVarDeclByName(c, "C02.47")
 		ctx("C02", "threaded", "samePredicate", "constQualifiers", "injected", "isContextType", "doneErr", "handlerUnchanged", "paramsNamedFirst", "namesWriteOnce", "notPatched")
 	case "C03":
 		order("C03", "pairedEdges", "refTable", "fieldAccess", "guardReceivers", "poolsAppendOnly", "poolsProcessed", "laneIntegrity", "emittedInPlace", "exprListsFresh", "readiness")
@@ -114,19 +127,49 @@ func crossRegistered(c *Ctx) {
 		parse("C06", "typeIdentity")
 		ctx("C06", "samePredicate", "constQualifiers", "injected", "notPatched")
 	case "C07":
+		// a wait nobody answers hangs the injector with or without cancellation: the close / wait discipline
+		order("C07", "pairedEdges", "isWait", "snapshot", "poolsAppendOnly", "poolsProcessed", "laneIntegrity", "stmtOrder", "syncJoins", "emittedInPlace", "exprListsFresh", "readiness", "providedCount", "fifo", "seeded")
+		ruleChannelGuards(c, "C07.40")
 		ctx("C07", "threaded", "samePredicate", "constQualifiers", "injected", "isContextType", "doneErr", "doneLeaves", "handlerUnchanged", "paramsNamedFirst", "notPatched")
 		parse("C07", "typeIdentity")
 	case "C08":
+		order("C08", "pairedEdges", "isWait", "snapshot", "poolsAppendOnly", "poolsProcessed", "laneIntegrity", "stmtOrder", "syncJoins", "emittedInPlace", "exprListsFresh", "readiness", "providedCount", "fifo", "seeded")
+		ruleChannelGuards(c, "C08.40")
 		ctx("C08", "threaded", "samePredicate", "constQualifiers", "injected", "paramsNamedFirst", "namesWriteOnce", "notPatched")
 		lanes("C08", "callerLane", "matching", "argmin")
 		parse("C08", "typeIdentity")
 	case "C09":
-		parse("C09", "typeIdentity", "resultsFresh")
+		parse("C09", "typeIdentity", "resultsFresh", "varDecl")
 		ruleOutputOpenedLast(c, "C09.47")
 	case "C10":
-		parse("C10", "typeIdentity", "resultsFresh")
+		parse("C10", "typeIdentity", "resultsFresh", "varDecl")
 		ruleSameContextPredicate(c, "C10.44")
 	case "C13":
-		parse("C13", "typeIdentity", "asyncFlag")
+		parse("C13", "typeIdentity", "asyncFlag", "varDecl")
+		// C13 is stated about the injector kessoku generates from the migrated file: dependency order and the reservation
+		// of the user's identifiers (a migrated wire.Value(x) copies x verbatim) are part of it
+		rulePairedEdges(c, "C13.40")
+		namesReachAllocator(c, "C13.48")
+	}
+}
+
+// namesReachAllocator: the registration rules of C12 (every package-level identifier of every file reaches the allocator
+// before names are handed out) under another property's id.
+func namesReachAllocator(c *Ctx, rule string) {
+	sub := &Ctx{Prop: c.Prop, Tier: c.Tier, L: c.L, FuncsSeen: c.FuncsSeen, Extra: c.Extra, RoleNames: c.RoleNames}
+	alloc := map[*ssa.Function]bool{}
+	for _, fn := range pkgFuncs(c.L, genPkg) {
+		if strings.HasSuffix(fn.String(), "VarPool).GetName") || strings.HasSuffix(fn.String(), "VarPool).Get") || strings.HasSuffix(fn.String(), "VarPool).GetChannel") {
+			alloc[fn] = true
+		}
+	}
+	c12Registration(sub, alloc)
+	for _, o := range sub.Obls {
+		o.Rule = rule
+		c.Obls = append(c.Obls, o)
+	}
+	for _, f := range sub.Finds {
+		f.Rule = rule
+		c.Finds = append(c.Finds, f)
 	}
 }
